@@ -65,11 +65,23 @@ def body_tol_entry(s, ctxname):
     return len(r[0]) >= 1
 
 
-def body_prefix(s, ctxname, la):
+def body_prefix(s, ctxname, la, ls):
     """s = A + stray closing token + garbage, A = s[:la] strictly parseable: A's top-level nodes survive."""
     a = s[:la]
     na = strict_parse_or_none(a, ctxname)
     if na is None:
+        return False
+    # the stray token must really be the first syntax error (a free character before it may turn it into
+    # something else: a comment start swallows it, an escape character makes it a control symbol)
+    try:
+        parse(s[:la + ls], get_ctx(ctxname), tolerant=False)
+        return False
+    except LatexWalkerParseError as e:
+        if e.pos != la:
+            return False
+    except Violation:
+        raise
+    except Exception:
         return False
     nt = tolerant_parse(s, ctxname)
     da = dump(na)[3:]
@@ -143,7 +155,7 @@ def conditions(tier):
                     continue
                 pre, la, sk = prefix_pre(base, stray, 1 if quick else 2, gap)
                 conds.append(Cond('prefix_%s_%s_%s' % (nm, snm, 'gap' if gap else 'adj'), 's: str', pre,
-                                  "body_prefix(s, 'S', %d)" % la, timeout=T,
+                                  "body_prefix(s, 'S', %d, %d)" % (la, len(stray)), timeout=T,
                                   smoke=[dict(s=sk.replace('?', '7').replace('!', c)) for c in 'x} \n'],
                                   descr='well-formed %r%s + stray %r + free garbage' % (
                                       base.replace('|', ''), ' + one free character' if gap else '', stray)))
